@@ -25,8 +25,8 @@ def gen_patches(rng, spec, depth=0):
     for k, c in F.direct_opt_children(spec):
         if c[0] == 'o' and rng.random() < 0.6 and depth < 3:
             sub = gen_patches(rng, c, depth + 1)
-            if sub:
-                p[k] = sub
+            if sub or rng.random() < 0.35:
+                p[k] = sub            # (an empty dict patch overrides nothing: the child must stay as it is)
     if rng.random() < 0.1:
         p[10] = {1: 5}        # dict patch for a key that does not exist
     return p
@@ -155,6 +155,8 @@ def main(ctx: Ctx):
         cases.append((g, gen_patches(rng, g)))
     # corpus: the recorded misdelivery witness
     cases.insert(0, (('o', 1, 0, [(3, ('p', 'list', [('o', 2, 0, [(9, ('a', 1))])])), (4, ('o', 3, 0, [(8, ('a', 1))]))]), {1: 101, 4: {8: 105}}))
+    cases.insert(1, (('o', 1, 0, [(3, ('o', 2, 0, [(9, ('a', 1))])), (4, ('a', 2))]), {3: {}}))
+    cases.insert(2, (('o', 1, 1, [(3, ('o', 2, 0, [(5, ('o', 3, 1, [(9, ('a', 1))]))]))]), {3: {5: {}}, 7: 101}))
     model = ctx.model(['frames %s %s' % (F.model_graph(g), F.model_patches(p)) for g, p in cases])
     results = []
     for i, (g, p) in enumerate(cases):
